@@ -142,6 +142,7 @@ def make_cases(ctx, n):
             c["eps"] = rng.choice([1 / 1024, 0.25]) if (i // len(kinds)) % 4 else 1e-15
             sel = (i // len(kinds)) % 5
             if sel in (1, 2, 3):
+                form = ["11", "N1", "1C", "NC"][(i // (5 * len(kinds)) + sel) % 4]
                 c["mask"] = mask_for(rng, form, N, C, sp, sel == 1)       # binary or soft weights, every (1|N, 1|C) form
             elif sel == 4 and rng.random() < 0.5:
                 c["mask"] = bad_mask(rng, N, C, sp)
@@ -413,6 +414,9 @@ def explains(broken_item, found):
     if not fresh:
         return False
     b = broken_item.lower()
+    if b.startswith("translator unit") or "case file did not evaluate" in b or "disagree on which" in b \
+            or "was not found in the current environment" in b:
+        return True     # names no specific function: any new concrete violation explains it
     table = [(("tversky",), ("tversky",)), (("dice",), ("dice", "tversky")), (("ncc",), ("ncc",)), (("wlcc",), ("wlcc",)),
              (("lcc",), ("lcc",)), (("mi_", "nmi", "hist", "p_joint"), ("mi_loss", "nmi")),
              (("ssd", "mse", "mae", "l1", "huber", "smooth_l1", "pointwise", "bcast"), ("ssd", "mse", "mae", "l1", "huber", "smooth"))]
